@@ -53,9 +53,17 @@ def run_search(rep, tier, want_explain=False, statuses=("PANIC", "BUDGET", "C03"
             f.write(out)
             key = mode if "-corpus" not in extra else "grammar-" + mode
             dist[key] = out.count("\n")
+    # type expressions: every constructor with every kind of argument (valid for it or not), nested, in the three places a type is
+    # parsed, part of them damaged by one token edit (checks/gen_type_mix.py)
+    ntm = {"quick": 40000, "targeted": 300000}.get(tier, 1500000)
+    rct, outt = verif.sh(["python3", os.path.join(verif.ROOT, "checks", "gen_type_mix.py"), str(rep.seed), str(ntm)], timeout=1200)
+    if rct == 0:
+        with open(cases, "a") as f:
+            f.write(outt)
+        dist["type-mix"] = outt.count("\n")
     outp = cases + ".out"
     cmd = [PSEARCH, "run", "-E", str(E), "-B", str(B)] + (["-explain"] if want_explain else [])
-    rc, err = verif.parallel_map_files(cmd, cases, outp, timeout=6000)
+    rc, err = verif.parallel_map_files(cmd, cases, outp, timeout=6000, mem_kb=16000000)
     res = {"dist": dist, "n": 0, "counts": {}, "hits": [], "max_ratio": 0.0, "rc": rc, "err": err[-400:], "E": E, "B": B,
            "samples": [], "accepted": 0, "out": outp, "cases": cases, "max_tokens": 0}
     with open(cases) as fc, open(outp) as fo:
@@ -66,7 +74,10 @@ def run_search(rep, tier, want_explain=False, statuses=("PANIC", "BUDGET", "C03"
             res["n"] += 1
             st = p[0]
             res["counts"][st] = res["counts"].get(st, 0) + 1
-            tk, steps = int(p[1]), int(p[2])
+            try:
+                tk, steps = int(p[1]), int(p[2])
+            except ValueError:
+                continue        # the torn last line of a worker that died (reported through rc)
             res["max_tokens"] = max(res["max_tokens"], tk)
             ratio = steps / (tk + 16.0)
             if ratio > res["max_ratio"]:
@@ -141,7 +152,7 @@ def run_focused(rep, function_names, statuses):
             rc, out = verif.sh([PSEARCH, "gen", "-mode", mode, "-corpus", corp] + extra, timeout=1200)
             f.write(out)
     outp = cases + ".out"
-    verif.parallel_map_files([PSEARCH, "run", "-E", str(E), "-B", str(B)], cases, outp, timeout=3000)
+    verif.parallel_map_files([PSEARCH, "run", "-E", str(E), "-B", str(B)], cases, outp, timeout=3000, mem_kb=16000000)
     hits, total = [], 0
     with open(cases) as fc, open(outp) as fo:
         for c, o in zip(fc, fo):
@@ -189,7 +200,7 @@ def run_chains(rep, n1=600, n2=2400):
         rc, out = verif.sh([PSEARCH, "gen", "-mode", "chains", "-n", str(n)], timeout=600)
         open(cases, "w").write(out)
         outp = cases + ".out"
-        verif.parallel_map_files([PSEARCH, "run", "-E", str(E), "-B", str(B), "-mem", "1"], cases, outp, timeout=3000)
+        verif.parallel_map_files([PSEARCH, "run", "-E", str(E), "-B", str(B), "-mem", "1"], cases, outp, timeout=3000, mem_kb=16000000)
         rows = {}
         with open(cases) as fc, open(outp) as fo:
             for idx, (c, o) in enumerate(zip(fc, fo)):
@@ -228,7 +239,7 @@ def run_chains(rep, n1=600, n2=2400):
     cases = os.path.join(verif.BUILD, "amplify_%s.txt" % rep.pid)
     rc, out = verif.sh([PSEARCH, "gen", "-mode", "amplify", "-n", str(n1)], timeout=600)
     open(cases, "w").write(out)
-    verif.parallel_map_files([PSEARCH, "run", "-E", str(E), "-B", str(B), "-mem", "1"], cases, cases + ".out", timeout=3000)
+    verif.parallel_map_files([PSEARCH, "run", "-E", str(E), "-B", str(B), "-mem", "1"], cases, cases + ".out", timeout=3000, mem_kb=16000000)
     with open(cases) as fc, open(cases + ".out") as fo:
         for c, o in zip(fc, fo):
             p = o.rstrip("\n").split("\t")
@@ -261,7 +272,7 @@ def run_truncations(rep, n=1500):
         out += out2
     open(cases, "w").write(out)
     outp = cases + ".out"
-    verif.parallel_map_files([PSEARCH, "run", "-E", str(E), "-B", str(B)], cases, outp, timeout=3000)
+    verif.parallel_map_files([PSEARCH, "run", "-E", str(E), "-B", str(B)], cases, outp, timeout=3000, mem_kb=16000000)
     hits, total = [], 0
     with open(cases) as fc, open(outp) as fo:
         for c, o in zip(fc, fo):
